@@ -24,8 +24,14 @@ pub enum FileState {
     SemanticFooter,
     /// well-formed container with a one-letter designation (refused by the local time type constructor)
     SemanticType,
+    /// the reader fails with std::io::Error of kind PermissionDenied (any failure to read means "try the next candidate")
+    UnreadablePermission,
+    /// the reader fails with std::io::Error of kind NotFound
+    UnreadableNotFound,
 }
-const STATES: [FileState; 9] = [
+const STATES: [FileState; 11] = [
+    FileState::UnreadablePermission,
+    FileState::UnreadableNotFound,
     FileState::Unreadable,
     FileState::ValidA,
     FileState::ValidB,
@@ -57,7 +63,7 @@ fn file_b() -> Vec<u8> {
 }
 fn bytes_of(s: FileState) -> Option<Vec<u8>> {
     match s {
-        FileState::Unreadable => None,
+        FileState::Unreadable | FileState::UnreadablePermission | FileState::UnreadableNotFound => None,
         FileState::ValidA => Some(file_a()),
         FileState::ValidB => Some(file_b()),
         FileState::InvalidNoMagic => Some(b"# zone.tab style text, not a TZif file\n".to_vec()),
@@ -78,7 +84,11 @@ fn vfs_reader(path: &str) -> Result<Vec<u8>, Box<dyn std::error::Error + Send + 
     let st = VFS.with(|v| v.borrow().get(path).copied()).unwrap_or(FileState::ValidB);
     match bytes_of(st) {
         Some(b) => Ok(b),
-        None => Err("virtual file system: no such file".into()),
+        None => match st {
+            FileState::UnreadablePermission => Err(Box::new(std::io::Error::from(std::io::ErrorKind::PermissionDenied))),
+            FileState::UnreadableNotFound => Err(Box::new(std::io::Error::from(std::io::ErrorKind::NotFound))),
+            _ => Err("virtual file system: no such file".into()),
+        },
     }
 }
 
@@ -102,7 +112,7 @@ fn zone_of_file(st: FileState) -> Outcome {
     match st {
         FileState::ValidA => Outcome::Zone(Box::new(TimeZone::from_tz_data(&file_a()).unwrap())),
         FileState::ValidB => Outcome::Zone(Box::new(TimeZone::from_tz_data(&file_b()).unwrap())),
-        FileState::Unreadable => Outcome::Io,
+        FileState::Unreadable | FileState::UnreadablePermission | FileState::UnreadableNotFound => Outcome::Io,
         // the outcome class follows the component that refuses the file's content (see `classify`)
         FileState::SemanticFooter | FileState::SemanticType => Outcome::StringError,
         _ => Outcome::DecodeError,
@@ -136,6 +146,10 @@ fn posix_zone(s: &[u8]) -> Outcome {
     Outcome::Zone(Box::new(TimeZone::new(vec![], types, vec![], Some(rule)).unwrap()))
 }
 
+fn unreadable(st: FileState) -> bool {
+    matches!(st, FileState::Unreadable | FileState::UnreadablePermission | FileState::UnreadableNotFound)
+}
+
 /// The protocol model: ordered list of paths opened + outcome
 pub fn model(value: &str, dirs: &[&str], vfs: &BTreeMap<String, FileState>) -> (Vec<String>, Outcome) {
     let state = |p: &str| vfs.get(p).copied().unwrap_or(FileState::ValidB);
@@ -150,14 +164,14 @@ pub fn model(value: &str, dirs: &[&str], vfs: &BTreeMap<String, FileState>) -> (
     let lookup = |name: &str| -> (Vec<String>, Option<FileState>) {
         if name.starts_with('/') {
             let st = state(name);
-            (vec![name.to_string()], if st == FileState::Unreadable { None } else { Some(st) })
+            (vec![name.to_string()], if unreadable(st) { None } else { Some(st) })
         } else {
             let mut opened = vec![];
             for d in dirs {
                 let p = format!("{d}/{name}");
                 let st = state(&p);
                 opened.push(p);
-                if st != FileState::Unreadable {
+                if !unreadable(st) {
                     return (opened, Some(st));
                 }
             }
@@ -360,7 +374,7 @@ pub fn run(args: &Args) -> i32 {
     rec.add(total.evals, total.nontrivial);
     rec.add_model(total.evals, total.opens + total.evals, total.evals);
     rec.digest("resolve", total.digest);
-    rec.set_rule("complete product: TZ values x ordered directory lists x every assignment of {unreadable, valid A, valid B, invalid without magic, invalid with magic, empty, well-formed container with unsorted transitions / bad footer / bad designation} to the candidate paths the model names plus one path that must never be opened; the logged sequence of read requests and the outcome class (incl. the decoded zone) must equal the protocol model's. states = configurations, transitions = file-open requests. non-trivial = configurations with >= 2 opens or a non-zone outcome");
+    rec.set_rule("complete product: TZ values x ordered directory lists x every assignment of {unreadable (opaque error, io::Error PermissionDenied, io::Error NotFound), valid A, valid B, invalid without magic, invalid with magic, empty, well-formed container with unsorted transitions / bad footer / bad designation} to the candidate paths the model names plus one path that must never be opened; the logged sequence of read requests and the outcome class (incl. the decoded zone) must equal the protocol model's. states = configurations, transitions = file-open requests. non-trivial = configurations with >= 2 opens or a non-zone outcome");
     rec.set_exhaustive(true);
     let v = vals[(args.seed as usize * 5 + 6) % vals.len()];
     let d = &dls[(args.seed as usize + 3) % dls.len()];
